@@ -1,0 +1,279 @@
+//go:build verif
+
+// Contracts for the verification machinery in /verif (comment-only; never compiled into a binary).
+// Property C16 (arbitration half): migration jobs that pass arbitration never exceed the configured limits; a job
+// refused only for lack of headroom stays waiting; a pod with a live migration job never gets a second one.
+
+package arbitrator
+
+// ---- the "passed arbitration" marker set ----------------------------------------------------------------------------
+
+//@ func (*filter).checkJobPassedArbitration [C16]
+//@   requires f != nil
+//@   ensures #is: result == f.arbitratedPodMigrationJobs[uid]
+//@   modifies nothing
+
+//@ func (*filter).markJobPassedArbitration [C16]
+//@   requires f != nil && f.arbitratedPodMigrationJobs != nil
+//@   ensures #marked: has(f.arbitratedPodMigrationJobs, uid) && f.arbitratedPodMigrationJobs[uid]
+//@   ensures #others: forall u types.UID :: u != uid ==> has(f.arbitratedPodMigrationJobs, u) == old(has(f.arbitratedPodMigrationJobs, u)) && f.arbitratedPodMigrationJobs[u] == old(f.arbitratedPodMigrationJobs[u])
+//@   modifies contents(f.arbitratedPodMigrationJobs)
+
+//@ func (*filter).removeJobPassedArbitration [C16]
+//@   requires f != nil
+//@   ensures #gone: !has(f.arbitratedPodMigrationJobs, uid) && !f.arbitratedPodMigrationJobs[uid]
+//@   ensures #others: forall u types.UID :: u != uid ==> has(f.arbitratedPodMigrationJobs, u) == old(has(f.arbitratedPodMigrationJobs, u)) && f.arbitratedPodMigrationJobs[u] == old(f.arbitratedPodMigrationJobs[u])
+//@   modifies contents(f.arbitratedPodMigrationJobs)
+
+// ---- pod marker "this pod is being arbitrated" (switches the limit checks to "running + passed" counting) -----------
+
+//@ spec func arbitrating(pod *corev1.Pod) bool = pod.ObjectMeta.Annotations != nil && pod.ObjectMeta.Annotations[AnnotationPodArbitrating] == "true"
+
+//@ func markPodArbitrating [C16]
+//@   requires pod != nil
+//@   ensures #marked: arbitrating(pod)
+//@   ensures #kept: old(pod.ObjectMeta.Annotations) != nil ==> pod.ObjectMeta.Annotations == old(pod.ObjectMeta.Annotations) && (forall k string :: k != AnnotationPodArbitrating ==> has(pod.ObjectMeta.Annotations, k) == old(has(pod.ObjectMeta.Annotations, k)) && pod.ObjectMeta.Annotations[k] == old(pod.ObjectMeta.Annotations[k]))
+//@   modifies pod.ObjectMeta.Annotations, contents(pod.ObjectMeta.Annotations)
+
+//@ func checkPodArbitrating [C16]
+//@   requires pod != nil
+//@   ensures #iff: result <==> arbitrating(pod)
+//@   modifies nothing
+
+// ---- iteration over the live migration jobs ---------------------------------------------------------------------------
+// Effective phase of a job (an empty phase counts as Pending).
+//@ spec func phaseOf(job *sev1alpha1.PodMigrationJob) sev1alpha1.PodMigrationJobPhase = job.Status.Phase == "" ? sev1alpha1.PodMigrationJobPending : job.Status.Phase
+// The job matches one of the requested (phase, must-have-passed-arbitration) pairs.
+//@ spec func matches(f *filter, job *sev1alpha1.PodMigrationJob, pcs []phaseContext) bool = exists k int :: 0 <= k && k < len(pcs) && phaseOf(job) == pcs[k].phase && (!pcs[k].checkArbitration || f.arbitratedPodMigrationJobs[job.ObjectMeta.UID])
+// Without an explicit list every Running / Pending job is live.
+//@ spec func eligible(f *filter, job *sev1alpha1.PodMigrationJob, pcs []phaseContext) bool = len(pcs) == 0 ? (phaseOf(job) == sev1alpha1.PodMigrationJobRunning || phaseOf(job) == sev1alpha1.PodMigrationJobPending) : matches(f, job, pcs)
+// (names the heap family "entries of NamespacedName sets" for frame designators)
+//@ spec func anyNNSet() map[types.NamespacedName]sets.Empty
+
+// The callback sees ONLY eligible jobs (#eligible) and is never called again once it returned false (#stop).
+// ASSUMED (option observers): a callback does not modify the job list, the phase list or the arbitration marks; the five
+// callbacks of this file write only their captured locals and, for the workload check, a NamespacedName set (frame).
+//@ func (*filter).forEachAvailableMigrationJobs [C16]
+//@   requires f != nil
+//@   option observers handler
+//@   assert before call handler: #eligible: eligible(f, $arg0, expectedPhaseContexts)
+//@   assert before call handler: #stop: calls("handler") == 1 || lastresult("handler")    // (the counter already includes the call being made)
+//@   ensures #nolist: lastresult("List") != nil ==> calls("handler") == 0
+//@   modifies allmaps(anyNNSet())
+//@   loop 1 invariant #goon: calls("handler") == 0 || lastresult("handler")
+//@   loop 2 invariant #found: found ==> (exists k int :: 0 <= k && k < len(expectedPhaseContexts) && phase == expectedPhaseContexts[k].phase && (!expectedPhaseContexts[k].checkArbitration || f.arbitratedPodMigrationJobs[job.ObjectMeta.UID]))
+
+// ---- counting callbacks of the limit checks ---------------------------------------------------------------------------
+// One call of the callback = one eligible job: the counter goes up by exactly one when the job refers to ANOTHER pod (a job
+// for the pod under arbitration itself is never counted, so a job is not counted against itself) that matches the scope
+// of the limit, and stays as it is otherwise; the iteration always continues.
+
+//@ spec func otherPodJob(job *sev1alpha1.PodMigrationJob, pod *corev1.Pod) bool = job.Spec.PodRef != nil && job.Spec.PodRef.UID != pod.ObjectMeta.UID
+//@ spec func nsCounted(job *sev1alpha1.PodMigrationJob, pod *corev1.Pod) bool = otherPodJob(job, pod) && job.Spec.PodRef.Namespace == pod.ObjectMeta.Namespace
+
+//@ func (*filter).filterMaxMigratingGlobally$1 [C16]
+//@   requires job != nil && deref($fv_pod) != nil
+//@   ensures #step: deref($fv_count) == old(deref($fv_count)) + (otherPodJob(job, deref($fv_pod)) ? 1 : 0)
+//@   ensures #goon: result
+//@   modifies inferred
+
+//@ func (*filter).filterMaxMigratingPerNamespace$1 [C16]
+//@   requires job != nil && deref($fv_pod) != nil
+//@   ensures #step: deref($fv_count) == old(deref($fv_count)) + (nsCounted(job, deref($fv_pod)) ? 1 : 0)
+//@   ensures #goon: result
+//@   modifies inferred
+
+// ---- limit checks -------------------------------------------------------------------------------------------------------
+//@ spec func gateSkipped(f *filter, g deschedulerconfig.EvictionGate) bool = f.skipEvictionGates != nil && has(f.skipEvictionGates, g)
+
+// The job phases a limit check counts: for a pod under arbitration exactly "Running" and "Pending AND passed arbitration";
+// otherwise the default of forEachAvailableMigrationJobs (no explicit list = every Running / Pending job).
+//@ spec func countedPhases(pod *corev1.Pod, pcs []phaseContext) bool = arbitrating(pod) ? (len(pcs) == 2 && pcs[0].phase == sev1alpha1.PodMigrationJobRunning && !pcs[0].checkArbitration && pcs[1].phase == sev1alpha1.PodMigrationJobPending && pcs[1].checkArbitration) : len(pcs) == 0
+
+//@ spec func globLimited(f *filter) bool = !gateSkipped(f, deschedulerconfig.EvictionGateMaxMigratingGlobally) && f.args.MaxMigratingGlobally != nil && deref(f.args.MaxMigratingGlobally) > 0
+//@ spec func nsLimited(f *filter) bool = !gateSkipped(f, deschedulerconfig.EvictionGateMaxMigratingPerNamespace) && f.args.MaxMigratingPerNamespace != nil && deref(f.args.MaxMigratingPerNamespace) > 0
+
+// No limit configured (gate skipped, nil, <= 0): always passes, nothing is listed. Otherwise the jobs are listed once, counted
+// from zero by the callback above over the phases countedPhases, and the pod passes EXACTLY when count < max (#headroom),
+// i.e. count + this job <= max.
+//@ func (*filter).filterMaxMigratingGlobally [C16]
+//@   requires f != nil && f.args != nil && pod != nil
+//@   ensures #unlimited: !globLimited(f) ==> result && calls("forEachAvailableMigrationJobs") == 0
+//@   ensures #counted: globLimited(f) ==> calls("forEachAvailableMigrationJobs") == 1
+//@   assert before call forEachAvailableMigrationJobs: #phases: count == 0 && countedPhases(pod, $arg2)
+//@   assert at return: #headroom: calls("forEachAvailableMigrationJobs") == 1 ==> (result <==> count < deref(f.args.MaxMigratingGlobally))
+//@   modifies allmaps(anyNNSet())
+
+//@ func (*filter).filterMaxMigratingPerNamespace [C16]
+//@   requires f != nil && f.args != nil && pod != nil
+//@   ensures #unlimited: !nsLimited(f) ==> result && calls("forEachAvailableMigrationJobs") == 0
+//@   ensures #counted: nsLimited(f) ==> calls("forEachAvailableMigrationJobs") == 1
+//@   assert before call forEachAvailableMigrationJobs: #phases: count == 0 && countedPhases(pod, $arg2)
+//@   assert at return: #headroom: calls("forEachAvailableMigrationJobs") == 1 ==> (result <==> count < deref(f.args.MaxMigratingPerNamespace))
+//@   modifies allmaps(anyNNSet())
+
+// ---- duplicate-job check ----------------------------------------------------------------------------------------------
+// The two look-up callbacks: `existing` becomes (and stays) true exactly when an eligible job refers to the pod (by UID, resp.
+// by namespace/name); the iteration stops as soon as one is found.
+//@ func (*filter).existingPodMigrationJob$1 [C16]
+//@   requires job != nil && deref($fv_pod) != nil
+//@   ensures #step: deref($fv_existing) <==> (old(deref($fv_existing)) || (job.Spec.PodRef != nil && job.Spec.PodRef.UID == deref($fv_pod).ObjectMeta.UID))
+//@   ensures #stop: result == !deref($fv_existing)
+//@   modifies inferred
+//@ func (*filter).existingPodMigrationJob$2 [C16]
+//@   requires job != nil && deref($fv_pod) != nil
+//@   ensures #step: deref($fv_existing) <==> (old(deref($fv_existing)) || (job.Spec.PodRef != nil && job.Spec.PodRef.Namespace == deref($fv_pod).ObjectMeta.Namespace && job.Spec.PodRef.Name == deref($fv_pod).ObjectMeta.Name))
+//@   ensures #stop: result == !deref($fv_existing)
+//@   modifies inferred
+
+//@ spec func samePhases(a []phaseContext, b []phaseContext) bool = len(a) == len(b) && (len(a) == 0 || (arr(a) == arr(b) && off(a) == off(b)))
+
+// existingPodMigrationJob: looks the pod up by UID and - only when that found nothing - by namespace/name, both over the
+// caller's phase list, starting from "not found"; the answer is whatever the callbacks left in `existing`.
+//@ func (*filter).existingPodMigrationJob [C16]
+//@   requires f != nil
+//@   assert before call forEachAvailableMigrationJobs: #fromfalse: !existing && samePhases($arg2, expectedPhaseContexts)
+//@   assert at return: #answer: result == existing
+//@   ensures #lookups: 1 <= calls("forEachAvailableMigrationJobs") && calls("forEachAvailableMigrationJobs") <= 2 && (!result ==> calls("forEachAvailableMigrationJobs") == 2)
+//@   modifies allmaps(anyNNSet())
+
+// A pod passes exactly when NO live (Running / Pending, whether arbitrated or not: default phase list) job refers to it:
+// a pod that already has a live migration job never gets a second one.
+//@ func (*filter).filterExistingPodMigrationJob [C16]
+//@   requires f != nil && pod != nil
+//@   assert before call existingPodMigrationJob: #allphases: $arg0 == pod && len($arg1) == 0
+//@   ensures #neg: calls("existingPodMigrationJob") == 1 && result == !lastresult("existingPodMigrationJob")
+//@   modifies allmaps(anyNNSet())
+
+// ---- per-node limit ---------------------------------------------------------------------------------------------------
+//@ spec func nodeLimited(f *filter, pod *corev1.Pod) bool = !gateSkipped(f, deschedulerconfig.EvictionGateMaxMigratingPerNode) && pod.Spec.NodeName != "" && f.args.MaxMigratingPerNode != nil && deref(f.args.MaxMigratingPerNode) > 0
+
+// No limit (gate skipped, pod without node, nil, <= 0): passes, nothing is listed. A failed or empty pod listing passes.
+// Otherwise every listed pod that is ANOTHER pod (#other: different UID - the pod itself is never counted) on the SAME node is
+// looked up with the phase list countedPhases; the counter starts at 0, never exceeds the number of look-ups (#bound), is
+// positive once a look-up answered "has a live job" (#nonzero), and the pod passes EXACTLY when count < max (#headroom; the
+// counting part is reached exactly on the paths that call checkPodArbitrating - the antecedent also keeps the clause from
+// naming `count` at the early returns where it does not exist yet).
+//@ func (*filter).filterMaxMigratingPerNode [C16]
+//@   requires f != nil && f.args != nil && pod != nil
+//@   ensures #unlimited: !nodeLimited(f, pod) ==> result && calls("List") == 0 && calls("existingPodMigrationJob") == 0
+//@   ensures #listed: nodeLimited(f, pod) ==> calls("List") == 1
+//@   ensures #listerr: nodeLimited(f, pod) && lastresult("List") != nil ==> result && calls("existingPodMigrationJob") == 0
+//@   assert before call existingPodMigrationJob: #other: $arg0.ObjectMeta.UID != pod.ObjectMeta.UID && $arg0.Spec.NodeName == pod.Spec.NodeName && countedPhases(pod, $arg1)
+//@   assert at return: #headroom: calls("checkPodArbitrating") == 1 ==> (result <==> count < deref(f.args.MaxMigratingPerNode))
+//@   modifies allmaps(anyNNSet())
+//@   loop 1 invariant #bound: 0 <= count && count <= calls("existingPodMigrationJob") && calls("existingPodMigrationJob") <= $i
+//@   loop 1 invariant #nonzero: calls("existingPodMigrationJob") > 0 && lastresult("existingPodMigrationJob") ==> count >= 1
+//@   loop 1 invariant #phases: countedPhases(pod, expectedPhaseContexts)
+
+// ---- per-workload limits ------------------------------------------------------------------------------------------------
+// The union is built in place in the first set (frame: only its entries change). ENGINE LIMIT: the whole-map postcondition
+// "has(unavailable, k) <==> old(has(unavailable, k)) || has(migrating, k)" over the struct-keyed sets times out (z3, 50 s) and is
+// not claimed.
+//@ func mergeUnavailableAndMigratingPods [C16]
+//@   requires unavailablePods != nil && unavailablePods != migratingPods
+//@   modifies contents(unavailablePods)
+
+// The unavailable set is a fresh, non-nil set; nothing that existed is written.
+//@ func (*filter).getUnavailablePods [C16]
+//@   ensures #fresh: result != nil && fresh(result)
+//@   modifies nothing
+//@   loop 1 invariant unavailablePods != nil && fresh(unavailablePods)
+
+// Both gates skipped or a pod without controller: passes. A controller-finder error refuses (without failing the job: the
+// check is part of the retryable filter). Otherwise the migrating pods of the workload are collected from zero over the
+// phases countedPhases; the unavailable set is only computed when the migrating limit leaves headroom (#migrating-ok), and
+// after the union "unavailable or migrating" the pod passes EXACTLY when |union| < maxUnavailable (#decision).
+//@ func (*filter).filterMaxMigratingOrUnavailablePerWorkload [C16]
+//@   requires f != nil && f.args != nil && pod != nil
+//@   let skipM = gateSkipped(f, deschedulerconfig.EvictionGateMaxMigratingPerWorkload)
+//@   let skipU = gateSkipped(f, deschedulerconfig.EvictionGateMaxUnavailablePerWorkload)
+//@   ensures #skipped: skipM && skipU ==> result && calls("GetPodsForRef") == 0
+//@   ensures #noowner: !(skipM && skipU) && lastresult("GetControllerOf") == nil ==> result && calls("GetPodsForRef") == 0
+//@   ensures #finderr: calls("GetPodsForRef") == 1 && lastresult("GetPodsForRef", 2) != nil ==> !result && calls("forEachAvailableMigrationJobs") == 0
+//@   assert before call forEachAvailableMigrationJobs: #phases: countedPhases(pod, $arg2) && migratingPods != nil && len(migratingPods) == 0
+//@   assert before call getUnavailablePods: #migrating-ok: !skipU && (skipM || len(migratingPods) == 0 || len(migratingPods) < maxMigrating)
+//@   assert before call mergeUnavailableAndMigratingPods: #sets: $arg0 == unavailablePods && $arg1 == migratingPods
+//@   ensures #merged: calls("getUnavailablePods") == calls("mergeUnavailableAndMigratingPods") && calls("getUnavailablePods") <= 1
+//@   assert at return: #decision: calls("mergeUnavailableAndMigratingPods") == 1 ==> (result <==> len(unavailablePods) < maxUnavailable)
+//@   assert at return: #migrating: calls("forEachAvailableMigrationJobs") == 1 && calls("getUnavailablePods") == 0 ==> (result <==> (skipU && (skipM || len(migratingPods) == 0 || len(migratingPods) < maxMigrating)))
+
+// ---- one arbitration round ----------------------------------------------------------------------------------------------
+// filtering: the pod is first marked "arbitrating" (so the limit checks count running + already-passed jobs), then the
+// non-retryable filter decides failure and the retryable filter (the limit checks) decides pass / wait:
+//   #failed  failed  <==> the non-retryable filter rejected;
+//   #passed  passed  <==> no filter rejected (a job without pod passes);
+//   hence a job refused ONLY by the retryable filter (lack of headroom) is neither failed nor passed: it keeps waiting.
+// ASSUMED (option observers): the two filter function values do not modify modelled state (the limit checks above are
+// proven to write nothing but NamespacedName scratch sets).
+//@ func (*arbitratorImpl).filtering [C16]
+//@   requires a != nil && a.filter != nil
+//@   option observers nonRetryablePodFilter retryablePodFilter
+//@   let nr = a.filter.nonRetryablePodFilter
+//@   let rt = a.filter.retryablePodFilter
+//@   assert before call $field.nonRetryablePodFilter: #marked: $arg0 == pod && arbitrating(pod)
+//@   assert before call $field.retryablePodFilter: #marked2: $arg0 == pod && arbitrating(pod) && (nr == nil || lastresult("$field.nonRetryablePodFilter"))
+//@   ensures #nilpod: pod == nil ==> !isFailed && isPassed
+//@   ensures #failed: isFailed <==> (pod != nil && nr != nil && !lastresult("$field.nonRetryablePodFilter"))
+//@   ensures #passed: isPassed <==> (pod == nil || ((nr == nil || lastresult("$field.nonRetryablePodFilter")) && (rt == nil || lastresult("$field.retryablePodFilter"))))
+//@   ensures #exclusive: !(isFailed && isPassed)
+//@   ensures #once: calls("$field.nonRetryablePodFilter") <= 1 && calls("$field.retryablePodFilter") <= 1
+//@   modifies pod.ObjectMeta.Annotations, contents(pod.ObjectMeta.Annotations)
+
+//@ spec func passedAnno(job *v1alpha1.PodMigrationJob) bool = job.ObjectMeta.Annotations != nil && job.ObjectMeta.Annotations[AnnotationPassedArbitration] == "true"
+
+// updatePassedJob: the job is annotated as passed and sent to the API server once; when that succeeds it is entered into the
+// arbitrated set (what checkJobPassedArbitration / the limit checks of LATER jobs read) and leaves the waiting collection;
+// when it fails the job stays waiting and unmarked. No other job's entries change.
+//@ func (*arbitratorImpl).updatePassedJob [C16]
+//@   requires a != nil && a.filter != nil && a.filter.arbitratedPodMigrationJobs != nil
+//@   ensures #annotated: passedAnno(job)
+//@   ensures #once: calls("Update") == 1
+//@   ensures #marked: lastresult("Update") == nil ==> a.filter.arbitratedPodMigrationJobs[job.ObjectMeta.UID] && !has(a.waitingCollection, job.ObjectMeta.UID)
+//@   ensures #retry: lastresult("Update") != nil ==> has(a.waitingCollection, job.ObjectMeta.UID) == old(has(a.waitingCollection, job.ObjectMeta.UID)) && a.waitingCollection[job.ObjectMeta.UID] == old(a.waitingCollection[job.ObjectMeta.UID]) && a.filter.arbitratedPodMigrationJobs[job.ObjectMeta.UID] == old(a.filter.arbitratedPodMigrationJobs[job.ObjectMeta.UID])
+//@   ensures #others: forall u types.UID :: u != job.ObjectMeta.UID ==> has(a.waitingCollection, u) == old(has(a.waitingCollection, u)) && a.waitingCollection[u] == old(a.waitingCollection[u]) && a.filter.arbitratedPodMigrationJobs[u] == old(a.filter.arbitratedPodMigrationJobs[u])
+//@   assert before call markJobPassedArbitration: #aftersuccess: calls("Update") == 1 && lastresult("Update") == nil && $arg0 == job.ObjectMeta.UID && passedAnno(job)
+//@   modifies job.ObjectMeta.Annotations, contents(job.ObjectMeta.Annotations), contents(a.filter.arbitratedPodMigrationJobs), contents(a.waitingCollection)
+
+// updateFailedJob: the job is marked Failed/Forbidden and leaves the waiting collection; it is NOT entered into the arbitrated set.
+//@ func (*arbitratorImpl).updateFailedJob [C16]
+//@   requires a != nil
+//@   ensures #failed: job.Status.Phase == v1alpha1.PodMigrationJobFailed && job.Status.Reason == v1alpha1.PodMigrationJobReasonForbiddenMigratePod
+//@   ensures #removed: !has(a.waitingCollection, job.ObjectMeta.UID)
+//@   ensures #others: forall u types.UID :: u != job.ObjectMeta.UID ==> has(a.waitingCollection, u) == old(has(a.waitingCollection, u)) && a.waitingCollection[u] == old(a.waitingCollection[u])
+//@   ensures #notpassed: calls("markJobPassedArbitration") == 0
+//@   modifies job.Status.Phase, job.Status.Reason, job.Status.Message, contents(a.waitingCollection)
+
+// Environment plumbing of a round: snapshot of the waiting jobs, their pods (API reads into fresh objects), the sort
+// strategies (ASSUMED observers: function values that only reorder the slice they are given).
+//@ func (*arbitratorImpl).copyJobs [C16]
+//@   requires a != nil
+//@   modifies nothing
+//@ func getPodForJob [C16]
+//@   ensures #map: result != nil && fresh(result)
+//@   modifies nothing
+//@   loop 1 invariant podOfJob != nil && fresh(podOfJob)
+//@ func (*arbitratorImpl).sort [C16]
+//@   requires a != nil
+//@   option observers sortFn
+//@   modifies nothing
+
+// doOnceArbitrate: the jobs are checked ONE BY ONE in sorted order, and the outcome of a job is recorded before the next
+// job is checked, so that the limit checks of later jobs count it:
+//   #thispod     filtering is called with the pod of the current job;
+//   #passedonly  updatePassedJob is called only for the job whose filtering just returned (failed=false, passed=true) -
+//                i.e. immediately, not after the round (the latest filtering result is that of THIS job);
+//   #failedonly  updateFailedJob only for the job whose filtering just returned failed=true;
+//   #settled     when the next job is about to be checked (loop head), the previous job - if it passed - carries the
+//                passed-arbitration annotation (set by updatePassedJob together with the arbitrated-set entry);
+//   #counts      one filtering call per job; at most one outcome call per job.
+// A job whose filtering returned (false,false) - refused only by a limit - reaches neither call: it stays in the waiting
+// collection, unmarked and not failed (frames of updatePassedJob / updateFailedJob: only the job passed in is touched).
+//@ func (*arbitratorImpl).doOnceArbitrate [C16]
+//@   requires a != nil && a.filter != nil && a.filter.arbitratedPodMigrationJobs != nil
+//@   assert before call filtering: #thispod: $arg0 == pod && pod == podOfJob[job]
+//@   assert before call updatePassedJob: #passedonly: $arg0 == job && lastresult("filtering", 1) && !lastresult("filtering", 0)
+//@   assert before call updateFailedJob: #failedonly: $arg0 == job && $arg1 == pod && lastresult("filtering", 0)
+//@   loop 1 invariant #heap: a.filter != nil && a.filter.arbitratedPodMigrationJobs != nil
+//@   loop 1 invariant #counts: calls("filtering") == $i && calls("updatePassedJob") + calls("updateFailedJob") <= $i
+//@   loop 1 invariant #settled: $i > 0 && lastresult("filtering", 1) && !lastresult("filtering", 0) ==> passedAnno($range[$i-1])
